@@ -1,4 +1,5 @@
 import Labella.Driver.LayoutCmd
+import Labella.Driver.OptionsCmd
 import Labella.Driver.TextCmd
 import Labella.Driver.CalCmd
 import Labella.Driver.ScaleCmd
@@ -18,6 +19,7 @@ def dispatch (line : String) : String :=
     | "ehist" :: rest => ehistCmd rest
     | "mhist" :: rest => mhistCmd rest
     | "pipe" :: rest => pipeCmd rest
+    | "objs" :: rest => objsCmd rest
     | "names" :: rest => namesCmd rest
     | "color" :: rest => colorCmd rest
     | "tex" :: rest => texCmd rest
